@@ -427,7 +427,16 @@ func (j *ChunkJournal) Update(ctx context.Context, behavior dherrors.FatalBehavi
 
 	// if |next| has a different table file set, flush to |j.backing|
 	if !equalSpecs(j.contents.specs, next.specs) {
-		if err := j.flushToBackingManifest(ctx, behavior, next, stats); err != nil {
+		// Publish the new table file set under the current root. |next.root| must not
+		// reach the backing manifest before its root hash record (and the chunk records
+		// ahead of it) are durable in the journal: bootstrapping falls back to the
+		// manifest's root when the journal has no root hash record yet, so a crash
+		// between these two steps would otherwise recover a root whose chunks were
+		// never written.
+		staged := next
+		staged.root = j.contents.root
+		staged.lock = generateLockHash(staged.root, staged.specs, staged.appendix, nil)
+		if err := j.flushToBackingManifest(ctx, behavior, staged, stats); err != nil {
 			return manifestContents{}, err
 		}
 	}
